@@ -2182,6 +2182,8 @@ class HDKey(Key):
                 index = int(item)
                 if index < 0:
                     raise BKeyError("Could not parse path. Index must be a positive integer.")
+                if hardened and index >= 0x80000000:
+                    raise BKeyError("Could not parse path. A hardened index must be smaller than 2^31: %s'" % item)
                 if first_public or not key.is_private:
                     if hardened:
                         raise BKeyError("Cannot derive hardened key from public key. Path item %s'" % item)
